@@ -33,7 +33,8 @@ EXPLANATION = (
 ASSUMPTIONS = ["sul::dynamic_bitset set/reset/test behave as named", "KeySlotStore::insert/remove_slot report membership changes truthfully"]
 DECIDED = ["a disjointness invariant", "b lazy monotone roll-over", "d mask writes follow membership changes", "e tick window push",
            "f polarity of ops tables",
-           'k insertion decision tables of TSS/TSD insert_key / insert_key_move', 'l whole-collection move assignment scans current members with slot_live']
+           'k insertion decision tables of TSS/TSD insert_key / insert_key_move', 'l whole-collection move assignment scans current members with slot_live',
+           'm decision table of TSDSlotStorage::record_child_modified']
 NOT_DECIDED = ["value/delta relation over histories", "nested modified-item sets", "dynamic-list growth arithmetic", "time-window eviction"]
 
 
